@@ -612,23 +612,63 @@ theorem run_fired_mono (g : Agenda) (ops : List Op) (h : ops.all noReset = true)
 
 /-! ### the loops: number of firings -/
 
-theorem incLoop_length {σ : Type} (pop : σ → Option Act × σ) (body : σ → Act → σ × Option Nat) :
-    ∀ (fuel : Nat) (s : σ) (out : List Nat), (incLoop pop body fuel s out).2.length ≤ out.length + fuel := by
+theorem incLoop_length {σ : Type} (pop : σ → Option Act × σ) (skip : σ → Act → Bool) (size : σ → Nat)
+    (body : σ → Act → σ × Nat) :
+    ∀ (fuel : Nat) (s : σ) (out : List Nat), (incLoop pop skip size body fuel s out).2.length ≤ out.length + fuel := by
   intro fuel
   induction fuel with
   | zero =>
     intro s out
     unfold incLoop
-    rcases pop s with ⟨_ | a, s'⟩ <;> simp
+    rcases incSkip pop skip (size s) s with ⟨_ | a, s'⟩ <;> simp
   | succ n ih =>
     intro s out
     unfold incLoop
-    rcases pop s with ⟨_ | a, s'⟩
+    rcases incSkip pop skip (size s) s with ⟨_ | a, s'⟩
     · simp
     · simp only
-      have := ih (body s' a).1 (match (body s' a).2 with | some x => out ++ [x] | none => out)
+      have := ih (body s' a).1 (out ++ [(body s' a).2])
       refine Nat.le_trans this ?_
-      cases (body s' a).2 <;> simp <;> omega
+      simp; omega
+
+theorem incSkip_fuel2 {σ : Type} (pop : σ → Option Act × σ) (skip : σ → Act → Bool) (size : σ → Nat)
+    (hpop : ∀ s a s', pop s = (some a, s') → size s' < size s) (hnone : ∀ s, size s = 0 → (pop s).1 = none) :
+    ∀ (k1 k2 : Nat) (s : σ), size s ≤ k1 → size s ≤ k2 → incSkip pop skip k1 s = incSkip pop skip k2 s := by
+  have hz : ∀ (k : Nat) (s : σ), size s = 0 → incSkip pop skip k s = (none, (pop s).2) := by
+    intro k s hs
+    cases k with
+    | zero => rfl
+    | succ k =>
+      simp only [incSkip]
+      have h0 := hnone s hs
+      rcases hp : pop s with ⟨_ | a, s'⟩
+      · rfl
+      · rw [hp] at h0; simp at h0
+  intro k1
+  induction k1 with
+  | zero =>
+    intro k2 s h1 _
+    rw [hz 0 s (by omega), hz k2 s (by omega)]
+  | succ k1 ih =>
+    intro k2 s h1 h2
+    cases k2 with
+    | zero => rw [hz _ s (by omega), hz 0 s (by omega)]
+    | succ k2 =>
+      simp only [incSkip]
+      rcases hp : pop s with ⟨_ | a, s'⟩
+      · rfl
+      · simp only
+        have hlt := hpop s a s' hp
+        split
+        · exact ih k2 s' (by omega) (by omega)
+        · rfl
+
+/-- the inner loop is not cut short by its fuel: when every successful pop removes an activation (`size` decreases), any fuel of
+at least `size s` gives the same result — the skipping steps terminate on their own -/
+theorem incSkip_fuel {σ : Type} (pop : σ → Option Act × σ) (skip : σ → Act → Bool) (size : σ → Nat)
+    (hpop : ∀ s a s', pop s = (some a, s') → size s' < size s) (hnone : ∀ s, size s = 0 → (pop s).1 = none)
+    (k : Nat) (s : σ) (h : size s ≤ k) : incSkip pop skip k s = incSkip pop skip (size s) s :=
+  incSkip_fuel2 pop skip size hpop hnone k (size s) s h (Nat.le_refl _)
 
 theorem insertByPrio_length (i : Nat) (p : Int) (l : List (Nat × Int)) : (insertByPrio i p l).length = l.length + 1 := by
   induction l with
